@@ -36,10 +36,10 @@ func propC19(c *Ctx, r *Report) {
 	r.rule("C19-R2/startup-gate", 3, "start-up passes the hard-fork check")
 	np := c.Startup
 	for _, cs := range []struct {
-		name    string
-		chk     AVal
-		flag    bool
-		wantOK  bool
+		name   string
+		chk    AVal
+		flag   bool
+		wantOK bool
 	}{
 		{"check passes", nilVal, false, true},
 		{"check fails, no override", fresh, false, false},
